@@ -6,6 +6,7 @@ package main
 // diagnostics as (kind, severity, range), hover / definition per position.
 
 import (
+	"sync"
 	"fmt"
 	"math/big"
 	"reflect"
@@ -372,8 +373,42 @@ func diagsToJSON(ds []analysis.Diagnostic) []any {
 	return out
 }
 
+// Texts with diagnostics of (nearly) every kind.  They are analysed, and every message rendered the way the command line and
+// the language server do, ONCE per process before the first observed text: what the checker says about a text must not depend on
+// what the process analysed or printed before (package-level tables, pools, caches).
+var provocations = []string{
+	"vars {\n acount $a\n monetary $m\n monetary $m\n numbr $n\n portion $p\n strng $s = meta(@a, \"k\")\n}\n" +
+		"send [USD 10] (\n source = $undefined\n destination = { 1/2 to @a 1/3 to @b }\n)\n" +
+		"send [USD *] (\n source = { 1/2 from @a remaining from @b }\n destination = @c\n)\n" +
+		"send [USD 1] (\n source = @world allowing unbounded overdraft\n destination = @a\n)\n" +
+		"send [USD 1] (\n source = { @a allowing unbounded overdraft @b }\n destination = { 1/0 to @b remaining kept }\n)\n" +
+		"send [USD 10] (\n source = { @a @a }\n destination = { 1/2 to @a 1/2 to @b remaining to @c }\n)\n" +
+		"send @a (\n source = @a\n destination = { $p to @a }\n)\nfoo(1)\nset_tx_meta(\"k\")\nset_tx_meta(1 + @a, [USD 1] - 2)\n",
+	"send [USD 1] (",
+	"vars { account $x = meta($x, \"k\") bogus $y }\nsave [USD *] from $y\nsend [EUR 2] (source = { remaining from @a 1/2 from @b } destination = @c)\n",
+}
+var provokeOnce sync.Once
+
+func provoke() {
+	for _, t := range provocations {
+		func() {
+			defer func() { recover() }()
+			res := analysis.CheckSource(t)
+			for _, d := range res.Diagnostics {
+				_ = d.Kind.Message()
+				_ = d.Kind.Severity()
+			}
+			_ = parser.ParseErrorsToString(parser.Parse(t).Errors, t)
+			_ = res.GetSymbols()
+		}()
+	}
+}
+
 // frontObserve runs parser (and optionally analysis) on one text
 func frontObserve(text string, withCheck bool) J {
+	if withCheck {
+		provokeOnce.Do(provoke)
+	}
 	obs := J{"panic": "", "nerr": 0, "nodes": []any{}, "flat": []any{}, "holes": false, "diags": []any{}}
 	func() {
 		defer func() {
@@ -405,6 +440,9 @@ func frontObserve(text string, withCheck bool) J {
 			}()
 			res := analysis.CheckSource(text)
 			obs["diags"] = diagsToJSON(res.Diagnostics)
+			for _, d := range res.Diagnostics { // every consumer renders the messages
+				_ = d.Kind.Message()
+			}
 		}()
 	}
 	return obs
@@ -422,11 +460,16 @@ func cmdFrontReplay(args []string) {
 		die(2, "%v", err)
 	}
 	var rp struct {
-		Kind string `json:"kind"`
-		Case J      `json:"case"`
+		Kind    string   `json:"kind"`
+		Case    J        `json:"case"`
+		History []string `json:"history"`
 	}
 	if err := jsonUnmarshal(b, &rp); err != nil {
 		die(2, "%v", err)
+	}
+	// a violation that depends on what the process handled before is replayed after those texts
+	for _, h := range rp.History {
+		frontObserve(h, rp.Kind != "front")
 	}
 	c := rp.Case
 	lw := newLineWriter(args[1])
